@@ -738,32 +738,36 @@ impl Sched {
     }
 }
 
-/// Restores the current thread's allocation tally on drop, so that whatever
-/// the scheduler, the hooks or harness bookkeeping allocate in between does
-/// not show up in the tallies divan reads (the process may run with
-/// `AllocProfiler` as its global allocator, see `untracked`).
-pub struct TallyGuard {
-    saved: Option<(::std::ptr::NonNull<crate::alloc::ThreadAllocInfo>, crate::alloc::ThreadAllocInfo)>,
+thread_local! {
+    /// How many `TallyGuard`s are alive on this thread.
+    static HARNESS_DEPTH: ::std::cell::Cell<u32> = const { ::std::cell::Cell::new(0) };
 }
+
+/// Whether the current thread is executing scheduler, hook or harness
+/// bookkeeping. A harness that installs `AllocProfiler` as the process
+/// allocator routes requests made in this state around the profiler, so that
+/// they leave no trace in the tallies divan reads (see `untracked`). Nothing
+/// of the code under test is consulted for this.
+#[inline]
+pub fn in_harness() -> bool {
+    HARNESS_DEPTH.try_with(|d| d.get() > 0).unwrap_or(true)
+}
+
+/// Marks the current thread as doing bookkeeping while alive.
+pub struct TallyGuard(());
 
 impl TallyGuard {
     #[inline]
     pub fn new() -> Self {
-        let saved = crate::alloc::ThreadAllocInfo::try_current().map(|p| {
-            // SAFETY: Thread-local, read on the owning thread.
-            (p, unsafe { p.as_ref() }.clone())
-        });
-        Self { saved }
+        let _ = HARNESS_DEPTH.try_with(|d| d.set(d.get() + 1));
+        Self(())
     }
 }
 
 impl Drop for TallyGuard {
     #[inline]
     fn drop(&mut self) {
-        if let Some((mut p, saved)) = self.saved.take() {
-            // SAFETY: Thread-local, written on the owning thread.
-            unsafe { *p.as_mut() = saved };
-        }
+        let _ = HARNESS_DEPTH.try_with(|d| d.set(d.get().saturating_sub(1)));
     }
 }
 
